@@ -68,12 +68,15 @@ SETUPS = {
     "N3-ev": ("N3", [{"st": "PS-B", "a": 1, "d": 4}], None, [0, 2]),  # calls 0,1,2,4
     "N2-k3": ("N2", [{"st": "PS-A", "a": 0, "d": 7}, {"st": "PS-B", "a": 0, "d": 1}], 3, []),  # calls 0,1,4,7
     "N1-k1": ("N1", [{"st": "PS-B", "a": 0, "d": 2}], 1, []),  # calls 0,1,2
+    # two run() stages; between them the caller hands the simulator its scheduler again (update_scheduler) and queues the
+    # second visit: calls 0,2 | 4,6 - a schedule submitted at 2 that reaches beyond the first stage keeps its periods
+    "N2-swap": ("N2", [{"st": "PS-A", "a": 0, "d": 2}, {"st": "PS-B", "a": 4, "d": 6}], None, []),
 }
-NCALLS = {"N2-k1": 4, "N2-k2": 4, "N3-ev": 4, "N2-k3": 4, "N1-k1": 3}
+NCALLS = {"N2-k1": 4, "N2-k2": 4, "N3-ev": 4, "N2-k3": 4, "N1-k1": 3, "N2-swap": 4}
 
 
 def bounds(tier, seed):
-    return {"alphabet": THOROUGH if tier == "thorough" else QUICK, "setups": list(SETUPS) if tier == "thorough" else ["N2-k1", "N2-k2", "N3-ev"], "program_length": "one entry per invocation (3-4)"}
+    return {"alphabet": THOROUGH if tier == "thorough" else QUICK, "setups": list(SETUPS) if tier == "thorough" else ["N2-k1", "N2-k2", "N3-ev", "N2-swap"], "program_length": "one entry per invocation (3-4)"}
 
 
 def programs(alpha, n):
@@ -117,7 +120,10 @@ class ProgSched(BaseAlgorithm):
 def scenario(item):
     net, sess, k, rc = SETUPS[item["setup"]]
     ss = [dict(s, sid="ev%d" % i, e=60.0, cap=100.0, init=0.0, batt="ideal") for i, s in enumerate(sess)]
-    return {"net": net, "sessions": ss, "k": k, "recompute": rc, "period": 5}
+    scn = {"net": net, "sessions": ss, "k": k, "recompute": rc, "period": 5}
+    if item["setup"] == "N2-swap":
+        scn["two_phase"] = 4
+    return scn
 
 
 def snapshot(sim, evs):
@@ -170,6 +176,10 @@ def execute(item):
         err = None
         try:
             sim.run()
+            if rec.later:
+                sim.update_scheduler(rec)  # the same scheduler object, registered again
+                sim.event_queue.add_events(rec.later)
+                sim.run()
         except Exception as exc:
             guard(exc)
             err = exc
